@@ -4,6 +4,7 @@ go 1.23
 
 require (
 	github.com/google/inverting-proxy v0.0.0
+	golang.org/x/net v0.23.0
 	pgregory.net/rapid v1.3.0
 )
 
@@ -16,7 +17,6 @@ require (
 	github.com/googleapis/enterprise-certificate-proxy v0.2.3 // indirect
 	github.com/googleapis/gax-go/v2 v2.7.1 // indirect
 	go.opencensus.io v0.24.0 // indirect
-	golang.org/x/net v0.23.0 // indirect
 	golang.org/x/oauth2 v0.7.0 // indirect
 	golang.org/x/sys v0.18.0 // indirect
 	golang.org/x/text v0.14.0 // indirect
